@@ -25,8 +25,8 @@ HARNESSES = {
     'k_modifiers_plane': (['C04'], True, 'LayoutModifiers::from(get_modifiers(m)) for all 256 modifier bytes'),
     'k_ffi_config_lifecycle': (['C19'], True, 'config handle: non-null, two arbitrary setter calls, getters == model, free'),
     'k_ffi_null_free': (['C19'], True, 'freeing null handles / null string is a no-op'),
-    'k_ffi_suggestion_full': (['C19'], False, 'list suggestion read-outs (2 candidates, <= 2 ASCII bytes each): fresh NUL-terminated copies, valid after free'),
-    'k_ffi_suggestion_single': (['C19'], False, 'single suggestion read-outs (<= 3 ASCII bytes)'),
+    'k_ffi_suggestion_full': (['C19'], False, 'list suggestion read-outs (2 candidates of one symbolic ASCII byte): fresh NUL-terminated copies, valid after free'),
+    'k_ffi_suggestion_single': (['C19'], False, 'single suggestion read-outs (one symbolic ASCII byte)'),
 }
 
 
@@ -91,7 +91,7 @@ def run(harnesses, timeout=1800):
         env = dict(os.environ)
         env['CARGO_NET_OFFLINE'] = 'true'
         env['CARGO_TARGET_DIR'] = TARGET
-        cmd = ['cargo', 'kani', '-Z', 'stubbing', '-Z', 'function-contracts', '--output-format', 'terse', '-j', '4']
+        cmd = ['cargo', 'kani', '-Z', 'stubbing', '-Z', 'function-contracts']
         for h in harnesses:
             cmd += ['--harness', h]
         try:
